@@ -41,7 +41,10 @@ SCRIPTS = {
 SCRIPTS["substrate-forms"] = [["new", "fwd", "all", "sub-graph"], ["new", "bwd", "all", "sub-syngraph"], ["new", "fwd", "comp", "sub-syngraph"],
                               ["new", "bwd", "bt", "sub-graph"]]
 # the one script that exercises SynRule objects handed over for BACKWARD application
-SCRIPTS["rule-backward"] = [["new", "fwd", "all", "rule"], ["new", "bwd", "all", "rule"], ["new", "fwd", "all", "rule"]]
+# (one SynRule object -> forwards -> backwards -> forwards -> backwards under another strategy -> forwards: the reactor must not modify
+# the template object it is given, and its results must not depend on earlier uses of that object)
+SCRIPTS["rule-backward"] = [["new", "fwd", "all", "rule"], ["new", "bwd", "all", "rule"], ["new", "fwd", "all", "rule"],
+                            ["new", "bwd", "bt", "rule"], ["new", "fwd", "comp", "rule"]]
 
 
 def _its_canon(g):
@@ -147,6 +150,10 @@ def run_history(rsmi, core, inv, strategy, mode, script, a, b, tgt):
         return SynRule(g, implicit_h=(mode != "I"))
     shared_tpl = rsmi_to_its(rsmi, core=core)
     shared_rule = rule_of(copy.deepcopy(shared_tpl))
+
+    def rule_sig():
+        return (K._gsig(shared_rule.rc.raw), K._gsig(shared_rule.left.raw), K._gsig(shared_rule.right.raw))
+    sig_rule0, sig_tpl = rule_sig(), K._gsig(shared_tpl)
     saved, edits = {}, []
     sub0 = b if inv else a
     R = None
@@ -155,6 +162,7 @@ def run_history(rsmi, core, inv, strategy, mode, script, a, b, tgt):
         if st[0] == "edit":
             _edit(shared_tpl, st[1], saved)
             edits.append(st[1])
+            sig_tpl = K._gsig(shared_tpl)          # the caller's own edit: the new reference value
             continue
         if st[0] == "read":
             attr = st[1]
@@ -192,5 +200,11 @@ def run_history(rsmi, core, inv, strategy, mode, script, a, b, tgt):
             rec["equal"] = got == want
         if not rec["equal"]:
             rec["detail"] = "shared objects give %s, a fresh evaluation gives %s" % (repr(got)[:160], repr(want)[:160])
+        # the reactor must leave the template objects it was given as they were (ITS graph and SynRule object: rc / left / right)
+        changed = [nm for nm, a, b in (("template graph", K._gsig(shared_tpl), sig_tpl), ("SynRule object", rule_sig(), sig_rule0)) if a != b]
+        if changed:
+            rec["equal"] = False
+            rec["modified"] = True
+            rec["detail"] = "template object modified by the reactor: %s; %s" % (", ".join(changed), rec.get("detail", ""))
         out.append(rec)
     return out
